@@ -43,6 +43,13 @@ type SymPtr struct {
 	Idx *Term
 }
 
+// IdxPtr is the address of element Idx (symbolic, already bounds-checked) of a vector of scalars:
+// loads are ite chains, stores update every element conditionally — no case split.
+type IdxPtr struct {
+	Base []Value
+	Idx  *Term
+}
+
 type UnsafePtr struct {
 	V Value
 	T types.Type
